@@ -486,11 +486,19 @@ def draw_case(d, kinds=None, *, degenerate=False, general_position=False,
     if options:
         wca = d.choice(weight_axis_options(kind, len(lead_)))
         o['weight_constant_axis'] = wca
-        sal_kind = d.choice(['none', 'none', 'positive', 'zeros'])
-        if positive_saliency_only and sal_kind == 'zeros':
-            sal_kind = 'positive'
+        sal_kind = d.choice(['none', 'none', 'positive', 'uneven', 'zeros',
+                             'binary'])
+        if positive_saliency_only and sal_kind in ('zeros', 'binary'):
+            sal_kind = 'uneven'
         if sal_kind != 'none':
             s = rng.uniform(0.2, 2.0, size=(*lead_, N))
+            if sal_kind == 'uneven':
+                # very different saliency mass per slice
+                s = s * 10 ** rng.uniform(-1.5, 1.5, size=(*lead_, 1))
+            if sal_kind == 'binary':
+                rate = rng.uniform(0.3, 1.0, size=(*lead_, 1))
+                s = (rng.uniform(size=(*lead_, N)) < rate).astype(float)
+                s[..., 0] = 1.0
             if sal_kind == 'zeros' and N >= 2:
                 idx = d.subset(N, 1, N - 1)
                 s[..., idx] = 0
@@ -544,3 +552,84 @@ def call_fit(ctx, case, allow_reject=True, **kw):
     """fit through ctx.lib: explicit exceptions become Rejected (allowed by
     C01/C09), anything else a violation."""
     return ctx.lib(fit, case, allow=EXPLICIT if allow_reject else (), **kw)
+
+
+# --------------------------------------------------------------------------
+# independent component densities (pbv.oracles, explicit loops)
+# --------------------------------------------------------------------------
+
+def oracle_component_log_pdf(model, case, y=None, emb=None):
+    """log p_k(y_n) computed with the reference densities of pbv.oracles
+    from the parameters stored in the model; shape (*lead, K, N)."""
+    from pbv.oracles import densities as od
+    y = case.y if y is None else y
+    kind = case.kind
+    lead, K, N = case.lead, case.K, case.N
+    out = np.empty((*lead, K, N))
+    yn = normalize(np.asarray(y, dtype=np.complex128 if np.iscomplexobj(y)
+                              else np.float64))
+
+    def cacg_part(cacg, idx, k):
+        V = np.asarray(cacg.covariance_eigenvectors)[idx][k]
+        lam = np.asarray(cacg.covariance_eigenvalues)[idx][k]
+        B = (V * lam) @ V.conj().T
+        return od.cacg_logpdf(yn[idx], B)
+
+    if kind == 'cacgmm':
+        for idx in np.ndindex(*lead):
+            for k in range(K):
+                out[idx][k] = cacg_part(model.cacg, idx, k)
+    elif kind == 'cwmm':
+        w = model.complex_watson
+        for idx in np.ndindex(*lead):
+            for k in range(K):
+                out[idx][k] = od.watson_logpdf(
+                    yn[idx], np.asarray(w.mode)[idx][k],
+                    float(np.asarray(w.concentration)[idx][k]))
+    elif kind == 'gmm':
+        g = model.gaussian
+        ct = case.opts.get('covariance_type', 'full')
+        for idx in np.ndindex(*lead):
+            for k in range(K):
+                mean = np.asarray(g.mean)[idx][k]
+                cov = np.asarray(g.covariance)[idx][k]
+                if ct == 'full':
+                    out[idx][k] = od.gaussian_logpdf(y[idx], mean, cov)
+                elif ct == 'diagonal':
+                    out[idx][k] = od.diag_gaussian_logpdf(y[idx], mean, cov)
+                else:
+                    out[idx][k] = od.spherical_gaussian_logpdf(y[idx], mean, cov)
+    elif kind == 'vmfmm':
+        v = model.vmf
+        for idx in np.ndindex(*lead):
+            for k in range(K):
+                out[idx][k] = od.vmf_logpdf(
+                    y[idx], np.asarray(v.mean)[idx][k],
+                    float(np.asarray(v.concentration)[idx][k]))
+    elif kind in INTEGRATION:
+        emb = case.emb if emb is None else emb
+        F = lead[0]
+        for f in range(F):
+            for k in range(K):
+                spatial = cacg_part(model.cacg, (f,), k)
+                if kind == 'gcacgmm':
+                    g = model.gaussian
+                    ct = case.opts.get('covariance_type', 'spherical')
+                    mean = np.asarray(g.mean)[k]
+                    cov = np.asarray(g.covariance)[k]
+                    if ct == 'full':
+                        spectral = od.gaussian_logpdf(emb[f], mean, cov)
+                    elif ct == 'diagonal':
+                        spectral = od.diag_gaussian_logpdf(emb[f], mean, cov)
+                    else:
+                        spectral = od.spherical_gaussian_logpdf(emb[f], mean, cov)
+                else:
+                    v = model.vmf
+                    spectral = od.vmf_logpdf(
+                        emb[f], np.asarray(v.mean)[k],
+                        float(np.asarray(v.concentration)[k]))
+                out[f, k] = model.spatial_weight * spatial + \
+                    model.spectral_weight * spectral
+    else:
+        raise NotImplementedError(kind)
+    return out
